@@ -182,9 +182,10 @@ CONDITIONS = [
     Cond(name="reuse", fn="reuse",
          params=[("top1", "int"), ("version1", "int"), ("top2", "int"), ("second2", "int"), ("version2", "int"), ("verify_twice", "bool")],
          pre=["0 <= top1 < %d" % len(TOPS), "0 <= top2 < %d" % len(TOPS), "0 <= second2 <= %d" % (N2 + 1), "0 <= version1 < 6", "0 <= version2 < 6"],
-         partitions={"quick": [{"top1": 0, "version1": 0, "top2": t} for t in range(len(TOPS))] + [{"top1": 2, "version1": 0, "top2": 0}, {"top1": 0, "version1": 1, "top2": 0}],
-                     "thorough": [{"top1": a, "top2": b} for a in range(len(TOPS)) for b in range(len(TOPS))]},
-         timeout={"quick": 300, "thorough": 600}, path_timeout=60,
+         partitions={"quick": [{"top1": 0, "version1": 0, "top2": t, "version2": v} for t in range(len(TOPS)) for v in (0, 1)] +
+                              [{"top1": 2, "version1": 0, "top2": 0, "version2": 0}, {"top1": 0, "version1": 1, "top2": 0, "version2": 0}],
+                     "thorough": [{"top1": a, "top2": b, "version1": v} for a in range(len(TOPS)) for b in range(len(TOPS)) for v in (0, 1, 5)]},
+         timeout={"quick": 600, "thorough": 900}, path_timeout=60,
          functions=["response.StatusResponse.loads/_loads/_verify/status_ok", "response.AuthnResponse.verify/parse_assertion"],
          bounds="two messages in a row through one AuthnResponse object (each: top-level code, Version from the first 6 catalogue entries; second message: all second-level codes), "
                 "optionally verify() twice on the first; quick: first message good, or one bad first message"),
